@@ -864,6 +864,7 @@ pub fn run_c01(ctx: &Ctx, rep: &mut Report) {
         check_find_and_iter(rep, pats, b, hay, sp, false)
     });
     dense_dictionary(ctx, rep, &[Kind::LeftmostFirst, Kind::LeftmostLongest]);
+    crate::meta::far_offsets(ctx, rep, &[Kind::LeftmostFirst, Kind::LeftmostLongest]);
 }
 
 pub fn run_c02(ctx: &Ctx, rep: &mut Report) {
